@@ -394,9 +394,9 @@ func (g *gen) finish(id, phase, skind string) *bcase {
 		want:  g.want, labels: g.labels, uni: g.uni}
 }
 
-func mkInit(t *ty) *val   { c := 0; return build(t, &c, mInit) }
-func mkSent(t *ty) *val   { c := 0; return build(t, &c, mSent) }
-func mkAlt(t *ty) *val    { c := 0; return build(t, &c, mAlt) }
+func mkInit(t *ty) *val { c := 0; return build(t, &c, mInit) }
+func mkSent(t *ty) *val { c := 0; return build(t, &c, mSent) }
+func mkAlt(t *ty) *val  { c := 0; return build(t, &c, mAlt) }
 
 // prologue declares the guards around `let v: T = <init>`.
 func (g *gen) prologue() *val {
@@ -582,7 +582,7 @@ func leanCases(t *ty) []*bcase {
 		leafs := leafOnly(tgs)
 		if len(leafs) > 0 {
 			g := newGen(t)
-		g.group = "lean:" + tk
+			g.group = "lean:" + tk
 			g.methods(leafs)
 			v := g.prologue()
 			g.methodCalls(leafs, v, "method")
@@ -592,7 +592,7 @@ func leanCases(t *ty) []*bcase {
 		// inferred: `let v := { ... } as T;` read back, stored into, read through a method
 		{
 			g := newGen(t)
-		g.group = "lean:" + tk
+			g.group = "lean:" + tk
 			g.methods(leafs)
 			v := g.inferredPrologue()
 			g.show("v", "v", v, "inferred")
